@@ -168,7 +168,7 @@ CLAIMS = {
                 "step attribute is computed from the quantities that generate the coordinates (spectrogram frequency/time steps over the "
                 "truncated sample counts given to stft, resample step 1/target); spectrogram origin = source's first time. Frame-exact "
                 "content, monotonicity and axis length depend on soundfile/scipy/np.arange and are not decided.",
-        "design_ref": "DESIGN.md section 3, C15 (R15.1-R15.4); boundary forwarding in section 8.8",
+        "design_ref": "DESIGN.md section 3, C15 (R15.1-R15.4); boundary forwarding in section 8.8; R15.6 (seek capped at the file length, F28) in section 8.15",
         "note": NOTE_COMMON,
         "technique": "step-provenance sibling rule: canonical-term equality between the advertised step and the generator's arguments; evaluation-order rule for seek/read",
     },
@@ -176,7 +176,7 @@ CLAIMS = {
         "text": "Static decision of: recorded step == generating step (size => (stop-start)/size), trailing-element trim present, wrappers forward "
                 "start/stop/step; get_coord_index decided on all orderings of value vs [start, stop] x raise flag; set_value_at_pos addresses "
                 "each query dimension's own axis with its own index and stores once. Exact np.arange values/counts are not decided.",
-        "design_ref": "DESIGN.md section 3, C16 (R16.1-R16.3); trim-test placements in section 8.8",
+        "design_ref": "DESIGN.md section 3, C16 (R16.1-R16.3); trim-test placements in section 8.8; R16.5 (empty range, F27) in section 8.15",
         "note": NOTE_COMMON,
         "technique": "keyword-pairing and canonical-term matching; ordering evaluation of the extracted lookup outcomes",
     },
